@@ -43,6 +43,10 @@ CHECKS = {
             "VerifyHTLCProof: before the locktime acceptance implies the witness preimage is hex, the lock value has 64 characters and hex(sha256(decoded preimage)) equals it, and with a threshold the signatures are non-empty, duplicate-free and HasValidSignatures accepted them over sha256(secret) with exactly the listed keys and threshold; after the locktime only the refund rule; SIG_ALL HTLC swaps: every output carries the verified preimage and signatures (call-site clauses in verifyBlindedMessages); the HTLC helpers sign exactly what the mint verifies (inputs and outputs).",
             "Assumed: as C12 (JSON determinism, schnorr contracts, clock). Bounded: HasValidSignatures matching semantics (bounded/hvs). SHA-256 preimage resistance not decided.",
             "DESIGN.md §8 C13"),
+    "C14": (True,
+            "Decode totality and accessor safety as zero-annotation no-panic obligations with precondition true (slice bounds of the version prefix, Token[0], TokenProofs[0], ...) on DecodeToken/V3/V4 and every accessor of both formats on arbitrary decoded values; Amount = sum of the proofs mod 2^64 in both formats (nested-loop invariants over spec sums); NewTokenV3 clears DLEQ when not requested; NewTokenV4 per-proof field conversion (amount, secret, witness, C decoded from hex) and DLEQ present iff requested and available, complete (e, s, r) or error. The full round trip through the real codecs incl. the V4 grouping map is a BOUNDED stand-in (bounded/token_roundtrip).",
+            "Assumed: json/cbor/base64 libraries do not panic (A-LIB1). Bounded (not proved): round trip build->serialize->decode, within the bound in evidence.",
+            "DESIGN.md §8 C14"),
     "C15": (True,
             "ProofsStateCheck: result is pointwise the ghost state in request order with the stored witness (SPENT over PENDING over UNSPENT), proved incl. the map-range resolution loop and the two IndexFunc closures; RestoreSignatures: returns exactly signed messages of the request, paired with the stored amount/id/C_/e/s; every successful Swap/MintTokens/MeltTokens stores its signatures / spent proofs.",
             "Assumed: storage.MintDB contracts (SQL text: bounded conformance when present); slices.IndexFunc modelled natively.",
